@@ -163,7 +163,7 @@ CHECKS["C06"] = dict(
 
 CHECKS["C07"] = dict(
     engine="symx+z3",
-    technique="bounded symbolic execution (symx/z3) of the REAL BYTECODE of inspect_frame under a nondeterministic environment: every read of f_lasti / stacktop / owner / a value-stack slot answers from a symbolic world that may move (new position, stacktop, 'frame finished') before any read not separated from the previous one by GIL-atomic bytecode only (computed from the real code object on every run); plus the real unwrap_thread under a symbolic thread lifecycle, plus real parked threads with solver-chosen depth and nesting",
+    technique="bounded symbolic execution (symx/z3) of the REAL BYTECODE of inspect_frame under a nondeterministic environment: every read of f_lasti / stacktop / owner / a value-stack slot answers from a symbolic world that may move (new position, stacktop, 'frame finished') before any read, except before a slot read that is separated from the preceding f_lasti check by GIL-atomic bytecode only (computed from the real code object on every run); plus the real unwrap_thread under a symbolic thread lifecycle, plus real parked threads with solver-chosen depth and nesting",
     text="PARTIAL CLAIM. (A) real threads parked in a body / inside __enter__ / inside __exit__ at depth 1..4 (thorough 7) with 0-2 managers per level, one or two threads: extract(thread) is exactly the thread's own frame chain, outermost first, with the managers of the event log per level, no warning; unstarted and finished threads give no frames; StackSlice(outer=a frame of another thread) is found there. (B) for every schedule of at most 2 (thorough 3) moves of the target among all positions of the code object: a snapshot is accepted only if every slot in it was read at the accepted position, it is slots 0..n-1 of one attempt, n derives from a stacktop read bracketed by two reads of the accepted position, the blocks are those of that position and a finished frame contributes no slots; a frame that never moves is accepted; every other outcome is AssertionError or (after 10 attempts) RuntimeError. (C) unwrap_thread reports a frame only if it is the thread's own, for every monotone lifecycle incl. ident reuse. NOT claimed: memory safety under real OS schedules (stale PyObject*, crashes), which depends on when CPython releases the GIL.",
     note="The environment of (B) replaces FrameObject.from_address, the InterpreterFrame fields, the ctypes.py_object array and sys.getrefcount; it is validated on every run against the real ctypes reads on a real suspended generator frame. The atomicity assumption (no GIL release between the f_lasti check and the slot read) is the one the source states; the check recomputes from the real bytecode that nothing but atomic instructions lies between them and fails as a harness error otherwise. Randomised stress and the 3.10 implementation are outside.",
     ref="DESIGN.md 0a / 5.C07",
